@@ -625,8 +625,14 @@ class SymX:
             hst.env[h.name] = ("exc", tid)
         hst = self.block(h.body, hst, f, depth)
         self.tries = getattr(self, "tries", {})
+        call_term = None
+        if split < len(s.body) and isinstance(s.body[split], (ast.Expr, ast.Assign)) and isinstance(s.body[split].value, ast.Call):
+            try:
+                call_term = self.expr(s.body[split].value, pre.copy(), f, depth)     # what is attempted, as a term
+            except Unsupported:
+                call_term = None
         self.tries[tid] = {"node": s, "handler": h, "type": src(h.type) if h.type is not None else None,
-                           "first_call_stmt": s.body[split] if split < len(s.body) else None}
+                           "first_call_stmt": s.body[split] if split < len(s.body) else None, "call_term": call_term}
         out = self.merge(("raised", tid), hst, body)
         if s.finalbody:
             out = self.block(s.finalbody, out, f, depth)
